@@ -37,10 +37,27 @@ func genC12(g *gen) {
 			g.prog.Faults = append(g.prog.Faults, &Fault{Kind: "crash", Srv: i, Mgr: -1, AtStep: 30 + g.r.IntN(300)})
 		}
 	}
+	// now and then: Close strikes while the sender (re)dials a node that has never been connected
+	// and that comes up just then (blocking dial with a long timeout; the server starts around the
+	// time of the Close, so that the connection attempt that is in flight succeeds after all)
+	lateUp := -1
+	if g.chance(0.15) {
+		c.WithBlock = true
+		c.DialTimeoutMs = 1000
+		lateUp = g.r.IntN(n)
+		c.Down, c.Blackhole = []int{lateUp}, nil
+		g.prog.Faults = nil
+		a := 40 + g.r.IntN(160)
+		g.prog.Faults = append(g.prog.Faults, &Fault{Kind: "restart", Srv: lateUp, AtStep: a + g.r.IntN(30)},
+			&Fault{Kind: "close", Mgr: 0, K: 1, AtStep: a + g.r.IntN(30)})
+	}
 	pool := stubsOf("rpc", "qc", "async", "corr", "cstream", "mcast", "ucast")
 	for m := 0; m < c.NMgrs; m++ {
 		nThreads := 1 + g.r.IntN(3)
 		closer := g.r.IntN(nThreads + 1) // == nThreads: closed by a fault action instead of a thread
+		if lateUp >= 0 && m == 0 {
+			closer = nThreads
+		}
 		for t := 0; t < nThreads; t++ {
 			th := &Thread{Mgr: m}
 			nOps := 1 + g.r.IntN(6)
@@ -87,7 +104,7 @@ func genC12(g *gen) {
 			}
 			g.prog.Threads = append(g.prog.Threads, th)
 		}
-		if closer == nThreads {
+		if closer == nThreads && !(lateUp >= 0 && m == 0) {
 			g.prog.Faults = append(g.prog.Faults, &Fault{Kind: "close", Mgr: m, K: pick(g.r, 1, 1, 2), AtStep: 20 + g.r.IntN(500)})
 		}
 	}
